@@ -66,3 +66,10 @@ func init() {
 		Old: "\t\t\tif n == 0 && count > 0 {\n", New: "\t\t\tif n == 0 && count > 0 && len(b) > 0 {\n",
 		Expect: "end-of-body-is-no-message", Why: "clean end delivered as an empty message"})
 }
+
+func init() {
+	control(&Control{ID: "dispatch-grpc-before-web", Rule: "DISPATCH-PREFIX-ORDER", File: "larking/mux.go",
+		Old:    "\tif strings.HasPrefix(\n\t\tr.Header.Get(\"Content-Type\"), \"application/grpc-web\",\n\t) {\n\t\tm.serveGRPCWeb(w, r)\n\t\treturn\n\t}\n\n\tif r.ProtoMajor == 2 && strings.HasPrefix(\n\t\tr.Header.Get(\"Content-Type\"), \"application/grpc\",\n\t) {\n\t\tm.serveGRPC(w, r)\n\t\treturn\n\t}\n",
+		New:    "\tif r.ProtoMajor == 2 && strings.HasPrefix(\n\t\tr.Header.Get(\"Content-Type\"), \"application/grpc\",\n\t) {\n\t\tm.serveGRPC(w, r)\n\t\treturn\n\t}\n\n\tif strings.HasPrefix(\n\t\tr.Header.Get(\"Content-Type\"), \"application/grpc-web\",\n\t) {\n\t\tm.serveGRPCWeb(w, r)\n\t\treturn\n\t}\n",
+		Expect: "prefix-order", Why: "shorter prefix tested first"})
+}
